@@ -123,6 +123,20 @@ theorem facts_round_trip (po : POps) (sf : UInt64 → String) (hα : ∀ c, isLe
   rw [String.toList_append, this]
   rfl
 
+/-- FACTS WITHOUT ARGUMENTS: `fn().` is read as the rule whose head is the functor alone, and printed as that text; as a term,
+    `fn()` is canonical too (`Canon.zero`) and may stand wherever a term stands -/
+theorem zero_arity_facts_round_trip (po : POps) (sf : UInt64 → String) {fn : Text} (hf : Word fn) (hsize : fn.length + 2 ≤ 1000)
+    (hfun : funPrefix (fn ++ ['(', ')']) = false) (f : Nat) :
+    let t : Term := .cplx (.cons (.atom (str fn)) .nil)
+    parseRule po f (fn ++ ['(', ')'] ++ ['.']) = .ok ⟨t, .nil⟩ ∧
+    showRule sf ⟨t, .nil⟩ = .ok (Term.show sf t ++ ".") ∧ (Term.show sf t ++ ".").toList = fn ++ ['(', ')'] ++ ['.'] := by
+  intro t
+  refine ⟨parseRule_fact_zero po hf hsize hfun f, show_fact sf t, ?_⟩
+  have := show_canon sf (Canon.zero 0 fn hf hsize hfun)
+  show (Term.show sf (.cplx (.cons (.atom (str fn)) .nil)) ++ ".").toList = fn ++ ['(', ')'] ++ ['.']
+  rw [String.toList_append, this]
+  rfl
+
 /-- non-vacuity: `loves(Ann, friend($X, -42))` is canonical, two levels deep -/
 example : Canon 2 "loves(Ann, friend($X, -42))".toList
     (.cplx (.cons (.atom "loves") (.cons (.atom "Ann") (.cons (.cplx (.cons (.atom "friend") (.cons (.var 0 "$X") (.cons (.int (-42)) .nil)))) .nil)))) := by
